@@ -64,6 +64,12 @@ def gen_data(ctx, d, nrec):
             T.write(">t%04d\n%s\n" % (i, "\n".join(tpl[k:k + 60] for k in range(0, len(tpl), 60))))
     for f in (F, R, S, T):
         f.close()
+    # long FASTA records without qualities: written as FASTQ they get the shared default quality vector
+    with open(os.path.join(d, "long.fasta"), "w") as L:
+        for i in range(max(60, nrec // 2)):
+            n = rng.choice([30, 400, 520, 900, 1500, 2600, 4000]) + rng.randrange(0, 200)
+            sq = rseq(rng, n)
+            L.write(">l%04d\n%s\n" % (i, "\n".join(sq[k:k + 60] for k in range(0, n, 60))))
     return pf, pr
 
 
@@ -74,6 +80,7 @@ def command_lines(d, pf, pr):
         ("obiconvert", ["obiconvert", s]),
         ("obiconvert-fasta", ["obiconvert", "--fasta-output", s]),
         ("obiconvert-json", ["obiconvert", "--json-output", s]),
+        ("obiconvert-fasta2fastq", ["obiconvert", "--fastq-output", os.path.join(d, "long.fasta")]),
         ("obigrep", ["obigrep", "-l", "90", "-s", "ac.t", s]),
         ("obigrep-v", ["obigrep", "-v", "-L", "100", s]),
         ("obiannotate", ["obiannotate", "--length", "-S", "foo=sequence.Len()+1", s]),
